@@ -133,6 +133,20 @@ func genC16(seed uint64, tier string) Scenario {
 		// concurrent with serving and with client connections
 		s := genC14(seed, tier).(*LifeScenario)
 		s.Prop = "C16"
+		// A second Bind/Listen concurrent with the END of a serving call is not among
+		// the concurrent uses the property lists (Shutdown, GetListener and
+		// RegisterInterface attempts next to a running Listen/DoListen): Bind's
+		// unlocked writes of protocol/address would race with teardown there. Those
+		// steps belong to C14 and are taken out of the race workload.
+		for i := range s.Ctl {
+			kept := s.Ctl[i][:0]
+			for _, op := range s.Ctl[i] {
+				if op.Op != "bind2" && op.Op != "listen2" {
+					kept = append(kept, op)
+				}
+			}
+			s.Ctl[i] = kept
+		}
 		extra := []CtlOp{}
 		n := 1 + g.IntN(3)
 		for i := 0; i < n; i++ {
